@@ -32,7 +32,8 @@ def deliveryOfJson (j : Json) : Except String Delivery := do
                         (← j.getObjValAs? Nat "tag"))
   | "wfResult" => pure (.wfResult (← kindOfString (← j.getObjValAs? String "kind")))
   | "expiry" => pure .expiry
-  | "startTask" => pure (.startTask (← j.getObjValAs? Bool "firstRun") (← j.getObjValAs? Bool "reset"))
+  | "startTask" => pure (.startTask (← j.getObjValAs? Bool "firstRun") (← j.getObjValAs? Bool "rerun")
+                           (← j.getObjValAs? Bool "reset"))
   | s => throw s!"bad delivery {s}"
 
 def taskJson (t : Task) : Json :=
